@@ -57,4 +57,94 @@ Proof.
   unfold sinv in H. rewrite Forall_forall in H. destruct (H t Hin) as [_ Hn]. congruence.
 Qed.
 
+(* ---- what a thread has completed is a prefix of what it was asked for, in order: nothing skipped, nothing twice ---- *)
+Fixpoint bottom (st : list (cls * list (cls * bool) * bool)) : option cls :=
+  match st with [] => None | [fr] => Some (fst (fst fr)) | _ :: r => bottom r end.
+
+Definition rinv (t : thread) (r : list cls) : Prop :=
+  finished t ++ todo t = r /\ (stack t <> [] -> exists c rest, todo t = c :: rest /\ bottom (stack t) = Some c).
+
+Lemma Forall2_upd {A B} (P : A -> B -> Prop) (t' : A) l r : Forall2 P l r ->
+  forall i t, nth_error l i = Some t -> (forall x, nth_error r i = Some x -> P t' x) -> Forall2 P (firstn i l ++ [t'] ++ skipn (S i) l) r.
+Proof.
+  induction 1 as [|a b l r Hab Hlr IH]; intros i t Hn Hp; [destruct i; discriminate|].
+  destruct i as [|i]; cbn.
+  - constructor; [apply Hp; reflexivity | exact Hlr].
+  - constructor; [exact Hab|]. eapply IH; [exact Hn | exact Hp].
+Qed.
+
+Lemma Forall2_nth {A B} (P : A -> B -> Prop) l r : Forall2 P l r ->
+  forall i t, nth_error l i = Some t -> exists x, nth_error r i = Some x /\ P t x.
+Proof.
+  induction 1 as [|a b l r Hab Hlr IH]; intros i t Hn; [destruct i; discriminate|].
+  destruct i as [|i]; cbn in *; [inversion Hn; subst; eauto | eauto].
+Qed.
+
+Lemma bottom_cons fr st : st <> [] -> bottom (fr :: st) = bottom st.
+Proof. destruct st; [contradiction | reflexivity]. Qed.
+
+Lemma bottom_top c fs b fs' b' below : bottom ((c, fs, b) :: below) = bottom ((c, fs', b') :: below).
+Proof. destruct below; reflexivity. Qed.
+Lemma bottom_push fr x below : bottom (fr :: x :: below) = bottom (x :: below).
+Proof. reflexivity. Qed.
+
+Lemma step_rinv reqs s i : sinv s -> Forall2 rinv (threads s) reqs -> Forall2 rinv (threads (step fields true s i)) reqs.
+Proof.
+  intros HS H. unfold step. destruct (nth_error (threads s) i) as [t|] eqn:E; [|exact H].
+  assert (Ht : tinv t).
+  { unfold sinv in HS. rewrite Forall_forall in HS. apply HS. eapply nth_error_In; eassumption. }
+  destruct Ht as [Hws Hf]. rewrite Hf.
+  destruct (Forall2_nth _ _ _ H i t E) as (r & Er & Hfin & Hbot).
+  assert (U : forall t', rinv t' r -> Forall2 rinv (firstn i (threads s) ++ [t'] ++ skipn (S i) (threads s)) reqs).
+  { intros t' Ht'. eapply Forall2_upd; [exact H | exact E |]. intros x Ex. rewrite Er in Ex. inversion Ex; subst. exact Ht'. }
+  destruct (stack t) as [|[[c [|[d dc] ds]] cached] below] eqn:Es; cbn [map fst] in Hws.
+  - destruct (todo t) as [|c rest] eqn:Et; [exact H|].
+    destruct (mem_N c (cache s)).
+    + apply U. split; cbn; [now rewrite <- app_assoc | intros X; contradiction].
+    + unfold eff_ws. rewrite Hws. cbn [mem_N existsb]. unfold enter, set_thread. cbn [threads]. apply U. split; cbn; [exact Hfin|].
+      intros _. exists c, rest. split; reflexivity.
+  - destruct (Hbot ltac:(discriminate)) as (c0 & rest & Et & Eb).
+    unfold set_thread. cbn [threads]. apply U. split; cbn.
+    + destruct below as [|fr below']; [|exact Hfin].
+      cbn in Eb. inversion Eb; subst c0. rewrite Et in Hfin |- *. cbn [tl]. now rewrite <- app_assoc.
+    + intros Hne. destruct below as [|fr below']; [contradiction|]. exists c0, rest. split; [exact Et|].
+      rewrite bottom_push in Eb. exact Eb.
+  - destruct (Hbot ltac:(discriminate)) as (c0 & rest & Et & Eb).
+    destruct ((dc && mem_N d (cache s)) || mem_N d (eff_ws true s t)).
+    + unfold set_thread. cbn [threads]. apply U. split; cbn [finished todo stack]; [exact Hfin|]. intros _. exists c0, rest. split; [exact Et|].
+      rewrite (bottom_top c ds cached ((d, dc) :: ds) cached). exact Eb.
+    + unfold enter, set_thread. cbn [threads]. apply U. split; cbn [finished todo stack]; [exact Hfin|]. intros _. exists c0, rest. split; [exact Et|].
+      rewrite bottom_push. rewrite (bottom_top c ds cached ((d, dc) :: ds) cached). exact Eb.
+Qed.
+
+Lemma run_rinv reqs sched : forall s, sinv s -> Forall2 rinv (threads s) reqs -> Forall2 rinv (threads (run fields true s sched)) reqs.
+Proof.
+  induction sched as [|i sched IH]; intros s HS H; cbn; [exact H|]. apply IH; [now apply step_inv | now apply step_rinv].
+Qed.
+
+Lemma init_rinv reqs : Forall2 rinv (threads (init reqs)) reqs.
+Proof.
+  unfold init. cbn. induction reqs as [|r reqs IH]; cbn; constructor; [|exact IH]. split; [reflexivity | intros X; contradiction].
+Qed.
+
+(* every schedule: each thread's completed requests followed by its pending ones are exactly its requests, in order *)
+Theorem finished_is_a_prefix reqs sched :
+  Forall2 (fun t r => failed t = false /\ finished t ++ todo t = r) (threads (run fields true (init reqs) sched)) reqs.
+Proof.
+  pose proof (run_rinv reqs sched (init reqs) (init_inv reqs) (init_rinv reqs)) as H.
+  pose proof (run_inv sched (init reqs) (init_inv reqs)) as HS. unfold sinv in HS. rewrite Forall_forall in HS.
+  revert HS. induction H as [|t r l rs [Hfin _] _ IH]; intros HS; constructor.
+  - split; [apply (HS t); now left | exact Hfin].
+  - apply IH. intros x Hx. apply HS. now right.
+Qed.
+
+(* ... so a thread with nothing left to do has completed exactly its requests: what the sequential execution completes *)
+Corollary idle_thread_completed_its_requests reqs sched i t r :
+  nth_error (threads (run fields true (init reqs) sched)) i = Some t -> nth_error reqs i = Some r ->
+  todo t = [] -> failed t = false /\ finished t = r.
+Proof.
+  intros Ht Hr Htodo. destruct (Forall2_nth _ _ _ (finished_is_a_prefix reqs sched) i t Ht) as (x & Ex & Hf & Hp).
+  rewrite Hr in Ex. injection Ex as Hx. rewrite <- Hx in Hp. rewrite Htodo, app_nil_r in Hp. auto.
+Qed.
+
 End TP.
